@@ -185,6 +185,15 @@ def execute(schedule) -> Result:
                 grid.setdefault("common_subexpression_elimination", [False])
                 seam.mode = op["minimize"]
                 n_before = len(pool)
+                # observation only: the configuration every candidate estimator carries when the search fits it
+                tried = []
+                real_fit = python.SklearnEKFAdapter.fit
+
+                def spy_fit(self_, *a_, _real=real_fit, _tried=tried, **k_):
+                    _tried.append(config_dict(self_.config))
+                    return _real(self_, *a_, **k_)
+
+                python.SklearnEKFAdapter.fit = spy_fit
                 try:
                     with contextlib.redirect_stdout(io.StringIO()), contextlib.redirect_stderr(io.StringIO()):
                         new = obj.fit_model(parameter_space=grid, data=X)
@@ -195,6 +204,14 @@ def execute(schedule) -> Result:
                     outcome = f"raised:{type(e).__name__}:{str(e)[:80]}"
                 finally:
                     seam.mode = "real"
+                    python.SklearnEKFAdapter.fit = real_fit
+                for k_ in ("common_subexpression_elimination", "extra_validation", "max_dt_sec", "innovation_filtering"):
+                    if k_ in op["grid"]:
+                        allowed = [repr(v) for v in op["grid"][k_]]
+                        off = sorted({c[k_] for c in tried if c[k_] not in allowed})
+                        if off:
+                            res.add("C18", "candidate_not_in_grid", f"C18:py:candidate_not_in_grid:{k_}", i, f"every candidate the search fits has {k_} from the grid {allowed}", f"fitted with {off}")
+                res.stats["probe:candidate_fits_observed"] += len(tried)
                 res.stats[f"probe:fit_model_{outcome.split(':')[0]}"] += 1
                 if len(X) < 3:
                     if outcome != "ModelFitError":
